@@ -120,6 +120,8 @@ def run_pack(ctx, pid, invs):
         if nm.get("stored") != exp_name["stored"]:
             rep("stored_name", "stored name %r, Spec %r" % (nm.get("stored"), exp_name["stored"]))
         elif (c["w"]["kept"] or c["r"]["kept"]) and nm.get("listed") != exp_name["listed"]:
+            for who in ("w", "r"):
+                o[who]["kept"] = c[who]["kept"]; o[who].setdefault("n", c[who]["n"])      # reported as a name problem, once
             rep("listed_name", "listed name %r for raw %r (foreign=%s), Spec %r" % (nm.get("listed"), nm["raw"], nm["foreign"], exp_name["listed"]))
         if not c18 and o["stored_ro"] != c["stored_ro"]:
             rep("stored_ro", "plaintext ro field %s, Spec %s" % (capstr(o["stored_ro"]), capstr(c["stored_ro"])))
